@@ -108,9 +108,14 @@ fn pick_flavour(r: &mut Rng) -> Flavour {
 
 /// how a consumer thread receives until the end of the stream
 fn consume_until_end(r: &mut Rng, h: u32, uni: bool, fut: bool, blocking_ok: bool) -> Vec<Op> {
+    consume_until_end2(r, h, uni, fut, blocking_ok, false)
+}
+
+fn consume_until_end2(r: &mut Rng, h: u32, uni: bool, fut: bool, blocking_ok: bool, fut_direct: bool) -> Vec<Op> {
     let after_end = r.below(3) as u8;
     if fut {
-        return vec![Op::Consume { h, api: RecvApi::Poll, quota: UNLIMITED, max_empty: UNLIMITED, after_end }];
+        let api = if fut_direct { *r.pick(&[RecvApi::Poll, RecvApi::Recv, RecvApi::Recv, RecvApi::TryRecv]) } else { RecvApi::Poll };
+        return vec![Op::Consume { h, api, quota: UNLIMITED, max_empty: UNLIMITED, after_end }];
     }
     let mut choices: Vec<RecvApi> = vec![RecvApi::TryRecv, RecvApi::TryIter];
     if blocking_ok {
@@ -151,6 +156,13 @@ pub struct CoreOpts {
     pub blocking_ok: bool,
     pub slow: bool,
     pub min_values_factor: u64,
+    /// futures consumers also use the direct try_recv / recv methods (C15)
+    pub fut_direct: bool,
+    /// add threads that perform single operations with everybody else frozen:
+    /// 1 = try_send / try_recv / try_recv_view (C18), 2 = poll / start_send (C15)
+    pub solo: u8,
+    /// only wait strategies that need no notification (busy, yielding)
+    pub no_notify_wait: bool,
 }
 
 impl Default for CoreOpts {
@@ -166,6 +178,9 @@ impl Default for CoreOpts {
             blocking_ok: true,
             slow: false,
             min_values_factor: 0,
+            fut_direct: false,
+            solo: 0,
+            no_notify_wait: false,
         }
     }
 }
@@ -177,6 +192,11 @@ pub fn core(seed: u64, name: &str, o: &CoreOpts) -> (Scenario, SchedCfg) {
     let flavour = pick_flavour(&mut g.rng);
     let cap = if o.small_cap { pick_small_cap(&mut g.rng) } else { pick_cap(&mut g.rng) };
     let mut q = if o.fut { fut_queue(&mut g.rng, flavour, cap) } else { plain_queue(&mut g.rng, flavour, cap) };
+    if o.no_notify_wait && !o.fut {
+        if let WaitK::Block(a, b) = q.wait {
+            q.wait = if g.rng.chance(1, 2) { WaitK::Busy } else { WaitK::Yield(a, b) };
+        }
+    }
     if o.zero_spins {
         if o.fut {
             if flavour == Flavour::Bcast {
@@ -222,6 +242,20 @@ pub fn core(seed: u64, name: &str, o: &CoreOpts) -> (Scenario, SchedCfg) {
             total_consumers += 1;
         }
     }
+    // solo receiver (created before any conversion so that clone / add_stream are legal)
+    let mut solo_recv: Option<(u32, bool)> = None;
+    if o.solo != 0 {
+        let hr = g.h();
+        let own_stream = flavour == Flavour::Bcast;
+        if own_stream {
+            s.setup.push(Op::AddStream { h: 1, new: hr });
+        } else {
+            s.setup.push(Op::CloneRecv { h: 1, new: hr });
+            // the first stream is now shared: no conversion of its handles
+            streams[0].push(u32::MAX);
+        }
+        solo_recv = Some((hr, own_stream));
+    }
     // values
     let per = {
         let lo = 2.max(o.min_values_factor * n / np.max(1));
@@ -238,6 +272,9 @@ pub fn core(seed: u64, name: &str, o: &CoreOpts) -> (Scenario, SchedCfg) {
     for st in &streams {
         let single = st.len() == 1;
         for &h in st {
+            if h == u32::MAX {
+                continue;
+            }
             let mut prog = Vec::new();
             let uni = single && g.rng.chance(1, 2);
             if uni {
@@ -245,9 +282,40 @@ pub fn core(seed: u64, name: &str, o: &CoreOpts) -> (Scenario, SchedCfg) {
                 s.setup.push(Op::IntoSingle { h });
             }
             // futures uni receivers poll through the stored closure
-            prog.extend(consume_until_end(&mut g.rng, h, uni && !o.fut, o.fut, o.blocking_ok));
+            prog.extend(consume_until_end2(&mut g.rng, h, uni && !o.fut, o.fut, o.blocking_ok, o.fut_direct));
             s.threads.push(ThreadSpec { handles: vec![h], prog, spawned: false });
         }
+    }
+    if let Some((hr, own_stream)) = solo_recv {
+        // a receiver that performs single operations while everybody else is frozen, then
+        // drains like any other consumer
+        let uni = own_stream && !o.fut && g.rng.chance(1, 2);
+        if uni {
+            s.setup.push(Op::IntoSingle { h: hr });
+        }
+        let mut prog = Vec::new();
+        for _ in 0..g.rng.range(1, 3) {
+            prog.push(Op::Yield(g.rng.range(0, 6) as u8));
+            let kind = if o.solo == 2 {
+                TryKind::Poll
+            } else if uni && g.rng.chance(1, 2) {
+                TryKind::RecvView
+            } else {
+                TryKind::Recv
+            };
+            prog.push(Op::SoloTry { h: hr, kind });
+        }
+        prog.extend(consume_until_end2(&mut g.rng, hr, uni, o.fut, o.blocking_ok, false));
+        s.threads.push(ThreadSpec { handles: vec![hr], prog, spawned: false });
+        let hs = g.h();
+        s.setup.insert(0, Op::CloneSender { h: 0, new: hs });
+        let mut prog = Vec::new();
+        for _ in 0..g.rng.range(1, 3) {
+            prog.push(Op::Yield(g.rng.range(0, 6) as u8));
+            prog.push(Op::SoloTry { h: hs, kind: if o.solo == 2 { TryKind::StartSend } else { TryKind::Send } });
+        }
+        prog.push(Op::DropSender { h: hs });
+        s.threads.push(ThreadSpec { handles: vec![hs], prog, spawned: false });
     }
     if o.slow {
         s.slow_clone = g.rng.range(1, 3) as u8;
@@ -399,7 +467,7 @@ fn quota_family(seed: u64, fut: bool) -> (Scenario, SchedCfg) {
             }
             if fut {
                 // poll inside a task, or the direct non-blocking method on a plain thread
-                apis = vec![RecvApi::Poll, RecvApi::Poll, RecvApi::TryRecv];
+                apis = vec![RecvApi::Poll, RecvApi::Poll, RecvApi::TryRecv, RecvApi::Recv];
             }
             let api = *g.rng.pick(&apis);
             let mut prog = Vec::new();
@@ -523,5 +591,116 @@ pub fn disconnect(seed: u64) -> (Scenario, SchedCfg) {
     }
     s.tags = common_tags(&s);
     let c = sched_for(&mut g.rng, &s, 40);
+    (s, c)
+}
+
+/// `seq`: one simulated thread, a generated call sequence checked against the reference
+/// model operation by operation (C09; also the sequential parts of C05, C13, C15, C17).
+pub fn seq_family(seed: u64, name: &str, force_fut: Option<bool>, o: &crate::seq::SeqOpts) -> (Scenario, SchedCfg) {
+    let mut g = Gen::new(seed);
+    let flavour = pick_flavour(&mut g.rng);
+    let fut = match force_fut {
+        Some(f) => f,
+        None => g.rng.chance(2, 5),
+    };
+    let cap = pick_cap(&mut g.rng);
+    let mut q = if fut { fut_queue(&mut g.rng, flavour, cap) } else { plain_queue(&mut g.rng, flavour, cap) };
+    if o.mpmc_second_stream {
+        q.flavour = Flavour::Mpmc;
+        q.fut = true;
+        q.fut_spins = None;
+    }
+    let mut s = Scenario::new(name, q);
+    let calls = crate::seq::gen_calls(&mut g.rng, &s.queue, o);
+    s.seq = Some(calls);
+    s.probe = false;
+    s.final_drain = g.rng.chance(1, 3);
+    s.teardown = match g.rng.below(3) {
+        0 => Teardown::SendersFirst,
+        1 => Teardown::ReceiversFirst,
+        _ => Teardown::Mixed(g.rng.next() as u32),
+    };
+    s.tags = common_tags(&s);
+    let mut c = SchedCfg::new(g.rng.next(), Strategy::Uniform);
+    c.livelock_window = 100_000;
+    (s, c)
+}
+
+/// `norecv`: the last receiver's drop races senders that are retrying, spinning or parking
+/// on a full queue (C13). Every send loop ends only when the send is refused as
+/// Disconnected, so a run that cannot finish is a sender that hangs.
+pub fn norecv(seed: u64) -> (Scenario, SchedCfg) {
+    let mut g = Gen::new(seed);
+    let flavour = pick_flavour(&mut g.rng);
+    let fut = g.rng.chance(3, 5);
+    let cap = *g.rng.pick(&[0u64, 1, 2, 2, 3]);
+    let mut q = if fut { fut_queue(&mut g.rng, flavour, cap) } else { plain_queue(&mut g.rng, flavour, cap) };
+    if fut && flavour == Flavour::Bcast {
+        q.fut_spins = Some(*g.rng.pick(&[(0u32, 0u32), (0, 0), (1, 1), (50, 50)]));
+    }
+    let mut s = Scenario::new("norecv", q);
+    let n = s.queue.capacity();
+    // receivers: several streams, several handles per stream
+    let ns = if flavour == Flavour::Bcast { g.rng.range(1, 3) } else { 1 };
+    let mut recvs: Vec<u32> = vec![1];
+    let mut heads: Vec<u32> = vec![1];
+    for _ in 1..ns {
+        let h = g.h();
+        s.setup.push(Op::AddStream { h: 1, new: h });
+        recvs.push(h);
+        heads.push(h);
+    }
+    for &hd in &heads {
+        if g.rng.chance(1, 2) && recvs.len() < 4 {
+            let h = g.h();
+            s.setup.push(Op::CloneRecv { h: hd, new: h });
+            recvs.push(h);
+        }
+    }
+    let np = g.rng.range(1, 2);
+    let mut senders = vec![0u32];
+    for _ in 1..np {
+        let h = g.h();
+        s.setup.push(Op::CloneSender { h: 0, new: h });
+        senders.push(h);
+    }
+    for &h in &senders {
+        let api = if fut && g.rng.chance(2, 3) { SendApi::Sink } else { SendApi::TrySend };
+        // more values than the window: the sender is certain to hit a full queue
+        s.threads.push(ThreadSpec {
+            handles: vec![h],
+            prog: vec![Op::Produce { h, n: (n + g.rng.range(2, 5)) as u32, api, max_retry: UNLIMITED }, Op::DropSender { h }],
+            spawned: false,
+        });
+    }
+    // every receiver leaves, after taking a few values or none
+    let mut buckets: Vec<Vec<u32>> = vec![Vec::new(); g.rng.range(1, 2) as usize];
+    for &h in &recvs {
+        let b = g.rng.below(buckets.len() as u64) as usize;
+        buckets[b].push(h);
+    }
+    for b in buckets {
+        if b.is_empty() {
+            continue;
+        }
+        let mut prog = Vec::new();
+        for &h in &b {
+            prog.push(Op::Yield(g.rng.range(0, 8) as u8));
+            let take = g.rng.below(3) as u32;
+            if take > 0 {
+                let api = if fut && g.rng.chance(1, 2) { RecvApi::Poll } else { RecvApi::TryRecv };
+                prog.push(Op::Consume { h, api, quota: take, max_empty: 3, after_end: 0 });
+            }
+            prog.push(if g.rng.chance(1, 2) { Op::Unsub { h } } else { Op::DropRecv { h } });
+        }
+        s.threads.push(ThreadSpec { handles: b, prog, spawned: false });
+    }
+    s.probe = false;
+    s.final_drain = false;
+    if fut && g.rng.chance(1, 3) {
+        s.spurious_poll = 40;
+    }
+    s.tags = common_tags(&s);
+    let c = sched_for(&mut g.rng, &s, 50);
     (s, c)
 }
